@@ -65,3 +65,46 @@ Proof. vm_compute. reflexivity. Qed.
 
 Example C03_ex_expand : fst (expand (S (length ex_env)) ex_env [] [3; 2; 0]) = [TLit KInt false; TLit KStr false].
 Proof. vm_compute. reflexivity. Qed.
+
+(* ---------- the event-level machine (Schema/Machine.v) against the denotation (Schema/MachineSpec.v) ----------
+   Proofs in Schema/MachineProofs.v.
+   The statement "mclosed g root = true -> exists F0, forall F, F0 <= F ->
+     (machine_validate g root v = None <-> maccepts F g root v = true)" is FALSE as it stands
+   ([C03_event_machine_empty_alias_refuted]): a reference position with an EMPTY validator list
+   (an empty reference list, or an alias whose chains only lead back to itself) makes feed return
+   "children = []", FeedLeaves keeps the parent validator as the leaf, and the parent consumes the
+   events of the child value as its own.  With the decidable hypothesis [mprod] (every reference
+   position below the root and in the graph has at least one validator) the machine accepts
+   exactly the documents of the denotation, never panics and finishes exactly at the end of the
+   value's events. *)
+From JS Require Schema.Machine Schema.MachineSpec Schema.MachineProofs.
+Set Warnings "-abstract-large-number".
+
+Theorem C03_event_machine_accepts_iff_denotation : forall g root v,
+  MachineSpec.mclosed g root = true -> MachineProofs.mprod g root = true ->
+  exists F0, forall F, F0 <= F ->
+    (Machine.machine_validate g root v = None <-> MachineSpec.maccepts F g root v = true).
+Proof. exact MachineProofs.machine_iff_maccepts. Qed.
+Print Assumptions C03_event_machine_accepts_iff_denotation.
+
+Theorem C03_event_machine_no_panic : forall g root v,
+  MachineSpec.mclosed g root = true -> MachineProofs.mprod g root = true ->
+  Machine.machine_validate g root v <> Some 9999.
+Proof. exact MachineProofs.machine_no_panic. Qed.
+Print Assumptions C03_event_machine_no_panic.
+
+Theorem C03_denotation_fuel_mono : forall F F' g n v,
+  F <= F' -> MachineSpec.maccepts F g n v = true -> MachineSpec.maccepts F' g n v = true.
+Proof. exact MachineProofs.maccepts_fuel_mono. Qed.
+Print Assumptions C03_denotation_fuel_mono.
+
+(* g = { 0: @0 }, root = { "a": @0 }, document {"a": {}} : accepted by the machine, not in the denotation *)
+Theorem C03_event_machine_empty_alias_refuted :
+  let g := [(0, Machine.MRefs [0] false)] in
+  let root := Machine.MObj [([x61], true, Machine.MRefs [0] false)] Machine.MAPNone false false in
+  let v := JObj [([x61], JObj [])] in
+  MachineSpec.mclosed g root = true /\ MachineProofs.mprod g root = false /\
+  Machine.validator_list g (Machine.MRefs [0] false) = Some [] /\
+  Machine.machine_validate g root v = None /\ (forall F, MachineSpec.maccepts F g root v = false).
+Proof. exact MachineProofs.machine_empty_alias_refuted. Qed.
+Print Assumptions C03_event_machine_empty_alias_refuted.
